@@ -587,8 +587,6 @@ Qed.
 Definition clean (s : st) : Prop :=
   forall di k c, In (di, k, c) (dk s) -> exists b, c = FGood b.
 
-Definition damage (o : op) : bool :=
-  match o with Seed _ _ (FBad _) => true | _ => false end.
 
 Lemma clean_put : forall (d : disk fkey bcont) di k b,
   (forall di k c, In (di, k, c) d -> exists b, c = FGood b) ->
@@ -639,8 +637,6 @@ Proof.
 Qed.
 
 (* ---- the theorems ---------------------------------------------------------- *)
-Fixpoint no_damage (ops : list op) : bool :=
-  match ops with [] => true | o :: r => negb (damage o) && no_damage r end.
 
 (* C07: from any good state, a history without hazard and without damaged
    files returns, at every call, what a fresh process returns *)
@@ -670,13 +666,6 @@ Qed.
 
 (* C08: damaged files (empty, truncated, garbage, zip prefix) allowed: every
    call either agrees with the fresh process or raises *)
-Fixpoint all_safe (s : st) (ops : list op) : bool :=
-  match ops with
-  | [] => true
-  | o :: r => let (s', res) := step s o in
-              (if is_call o then out_eqv res (fresh o) || (0 <? res_code res) else true) && all_safe s' r
-  end.
-
 Lemma fault_safe_from : forall ops s,
   Inv s -> no_hazard s ops = true -> all_safe s ops = true.
 Proof.
@@ -694,3 +683,75 @@ Qed.
 
 Theorem fault_safe : forall ops, no_hazard init ops = true -> all_safe init ops = true.
 Proof. intros. apply fault_safe_from; auto. apply Inv_init. Qed.
+
+(* ---- cache_cleanup only changes speed --------------------------------------- *)
+Lemma all_agree_last : forall ops s c,
+  all_agree s (ops ++ [c]) = true -> is_call c = true ->
+  out_eqv (snd (step (run s ops) c)) (fresh c) = true.
+Proof.
+  induction ops as [|o ops IH]; intros s c H Hc; cbn [app all_agree run] in *.
+  - destruct (step s c) as [s' r]. rewrite Hc in H. apply andb_true_iff in H. destruct H; auto.
+  - destruct (step s o) as [s' r] eqn:Es. apply andb_true_iff in H. destruct H as [_ H].
+    cbn [fst]. apply IH; auto.
+Qed.
+
+(* inserting a cache_cleanup anywhere in a hazard-free history does not
+   change what the last call returns *)
+Theorem cleanup_only_speed : forall ops1 ops2 c all,
+  is_call c = true ->
+  no_hazard init (ops1 ++ ops2 ++ [c]) = true -> no_damage (ops1 ++ ops2 ++ [c]) = true ->
+  no_hazard init (ops1 ++ Cleanup all :: ops2 ++ [c]) = true ->
+  den_out (last_result (ops1 ++ ops2) c) = den_out (last_result (ops1 ++ Cleanup all :: ops2) c).
+Proof.
+  intros ops1 ops2 c all Hc H1 D1 H2.
+  assert (D2 : no_damage (ops1 ++ Cleanup all :: ops2 ++ [c]) = true).
+  { clear - D1. induction ops1 as [|o r IH]; cbn [app no_damage] in *; auto.
+    apply andb_true_iff in D1. destruct D1. apply andb_true_iff. split; auto. }
+  pose proof (history_independent _ H1 D1) as A1.
+  pose proof (history_independent _ H2 D2) as A2.
+  rewrite app_assoc in A1. apply all_agree_last in A1; auto.
+  change (ops1 ++ Cleanup all :: ops2 ++ [c]) with (ops1 ++ (Cleanup all :: ops2) ++ [c]) in A2.
+  rewrite app_assoc in A2. apply all_agree_last in A2; auto.
+  unfold last_result. rewrite (out_eqv_sound _ _ A1), (out_eqv_sound _ _ A2). reflexivity.
+Qed.
+
+(* ---- refutations (recorded findings) ----------------------------------------- *)
+(* F3: a larger degree-3 basis file is cropped for a smaller request *)
+Definition d3_hist : list op := [Call 20 3 RNone 0 false (BPath 1) 0; Cleanup true].
+Definition d3_call : op := Call 12 3 RNone 0 false (BPath 1) 20.
+
+Theorem daun3_disk_crop_refuted :
+  res_code (last_result d3_hist d3_call) = 0 /\
+  den_out (last_result d3_hist d3_call) <> den_out (fresh d3_call).
+Proof.
+  split; [vm_compute; reflexivity|].
+  vm_compute. intros H. inversion H as [Hf].
+  pose proof (f_equal (fun f => f 0 0) Hf) as Hx. simpl in Hx. discriminate.
+Qed.
+
+(* and it is the only hazard of that history *)
+Example daun3_hist_hazard : no_hazard init (d3_hist ++ [d3_call]) = false /\ no_hazard init d3_hist = true.
+Proof. split; vm_compute; reflexivity. Qed.
+
+(* a save that fails (unwritable basis_dir) leaves the new basis next to the
+   old key: the next call with the old parameters silently uses it *)
+Definition fs_hist : list op :=
+  [Call 10 0 RNone 0 true BNone 0; Call 10 1 RNone 0 true (BPath BADDIR) 0].
+Definition fs_call : op := Call 10 0 RNone 0 true BNone 0.
+
+Theorem failed_save_poisons_refuted :
+  res_code (last_result fs_hist fs_call) = 0 /\
+  den_out (last_result fs_hist fs_call) <> den_out (fresh fs_call).
+Proof.
+  split; [vm_compute; reflexivity|].
+  vm_compute. intros H. inversion H as [Hf].
+  pose proof (f_equal (fun f => f 0 0) Hf) as Hx. simpl in Hx. discriminate.
+Qed.
+
+(* a valid file of a too small shape: the call raises, and keeps raising after
+   the file is removed (the junk stays in _bs under the right key) *)
+Definition ws_call : op := Call 10 0 RNone 0 false (BPath 1) 10.
+Definition ws_hist : list op := [Seed 1 (10, 0) FShape; ws_call; Remove 1 (10, 0)].
+
+Theorem wrong_shape_sticks : res_code (last_result ws_hist ws_call) = 1 /\ res_code (fresh ws_call) = 0.
+Proof. split; vm_compute; reflexivity. Qed.
